@@ -11,6 +11,7 @@ using namespace vf;
 int main(int argc, char **argv) {
   Ctx ctx = vf::parse_args(argc, argv);
   crab::CrabEnableWarningMsg(false);
+  if (getenv("VERIF_CRAB_LOG")) crab::CrabEnableLog(getenv("VERIF_CRAB_LOG"));
   if (getenv("VERIF_CRAB_VERBOSE")) crab::CrabEnableVerbosity(atoi(getenv("VERIF_CRAB_VERBOSE")));
   crab::verif::tick_hook() = &vf::tick_cb;
   std::vector<const DomInfo *> doms = select_domains(ctx.param("dom", "core"));
@@ -23,6 +24,8 @@ int main(int argc, char **argv) {
     Rng r(case_seed(ctx, k));
     const DomInfo &d = *doms[(size_t)(k % (int64_t)doms.size())];
     if (ctx.engine == "fwd") run_fwd_case(ctx, k, r, d);
+    else if (ctx.engine == "pool") run_pool_case(ctx, k, r, d);
+    else if (ctx.engine == "chain") run_chain_case(ctx, k, r, d);
     else {
       fprintf(stderr, "unknown engine\n");
       return 2;
